@@ -1088,7 +1088,10 @@ theorem hex_to_uint_inverse (a8 : Byte) (a16 : BitVec 16) (a32 : BitVec 32) (a64
 /-- `hex_to_uintNN` reads the digits in either case: the fixed-width text written with lower-case
     (or upper-case) letters parses to the value; `hex2half` maps both characters of a hex digit
     to its value (audit F4; the unrepaired `hex2half('a')` was 42) -/
-theorem hex_to_uint_either_case (up : Bool) (a32 : BitVec 32) (a64 : BitVec 64) (rest : List Byte) :
+theorem hex_to_uint_either_case (up : Bool) (a8 : BitVec 8) (a16 : BitVec 16) (a32 : BitVec 32) (a64 : BitVec 64)
+    (rest : List Byte) :
+    hexToUint 8 1 ((fixedDigits 16 2 a8.toNat).map (digitChar up) ++ rest) = some a8 ∧
+    hexToUint 16 2 ((fixedDigits 16 4 a16.toNat).map (digitChar up) ++ rest) = some a16 ∧
     hexToUint 32 4 ((fixedDigits 16 8 a32.toNat).map (digitChar up) ++ rest) = some a32 ∧
     hexToUint 64 8 ((fixedDigits 16 16 a64.toNat).map (digitChar up) ++ rest) = some a64 ∧
     (∀ d, d < 16 → (hex2half (digitChar up d)).toNat = d) := by
@@ -1111,7 +1114,11 @@ theorem hex_to_uint_either_case (up : Bool) (a32 : BitVec 32) (a64 : BitVec 64) 
       have d3 : a.toNat % 256 % 16 = a.toNat % 16 := by omega
       rw [d1, d2, d3]
       simp
-  refine ⟨?_, ?_, fun d hd => hex2half_digit d hd up⟩
+  refine ⟨?_, ?_, ?_, ?_, fun d hd => hex2half_digit d hd up⟩
+  · have := hexToUint_case up 1 (by decide) a8 rest
+    rwa [key 1 a8] at this
+  · have := hexToUint_case up 2 (by decide) a16 rest
+    rwa [key 2 a16] at this
   · have := hexToUint_case up 4 (by decide) a32 rest
     rwa [key 4 a32] at this
   · have := hexToUint_case up 8 (by decide) a64 rest
